@@ -9,8 +9,11 @@ import (
 	"crypto/sha512"
 	"crypto/x509"
 	"encoding/base64"
+	"encoding/hex"
 	"encoding/json"
+	"errors"
 	"fmt"
+	"io"
 	"net/http"
 	"net/http/httptest"
 	"sort"
@@ -33,7 +36,19 @@ var c14Docs = []string{"authn", "logout", "tiny", "non-ascii", "prolog-and-trail
 var c14URLs = []string{"https://idp.example.com/sso", "https://idp.example.com/sso?x=1", "https://idp.example.com/sso?x=1&y=a%20b&x=2", "https://idp.example.com/a%20path/sso", "https://idp.example.com/sso?empty=&flag"}
 var c14Funcs = []string{"BuildAuthURL", "BuildAuthURLFromDocument", "BuildAuthURLRedirect", "BuildLogoutURLRedirect", "AuthRedirect"}
 var c14Algs = []string{"", dsig.RSASHA1SignatureMethod, dsig.RSASHA512SignatureMethod, dsig.ECDSASHA256SignatureMethod}
-var c14Keys = []string{"field", "setter", "separate-signing-field", "separate-signing-setter", "ecdsa-signing-setter", "signing-field+encryption-setter"}
+var c14Keys = []string{"field", "setter", "separate-signing-field", "separate-signing-setter", "ecdsa-signing-setter", "signing-field+encryption-setter",
+	// signing keys that cannot sign: a signer whose Sign fails (an HSM that is away), a signing key
+	// store whose read fails; where a signature is due the builder must say so, not hand out a URL
+	"failing-signer-setter", "failing-signing-key-store-field"}
+
+type c14FailSigner struct{ pub crypto.PublicKey }
+
+func (f c14FailSigner) Public() crypto.PublicKey { return f.pub }
+func (f c14FailSigner) Sign(io.Reader, []byte, crypto.SignerOpts) ([]byte, error) {
+	return nil, errors.New("signing device unavailable")
+}
+
+func c14Failing(c c14Case) bool { return strings.HasPrefix(c14Keys[c.Keys], "failing-") }
 
 type c14Case struct {
 	Relay int  `json:"relay"`
@@ -46,6 +61,25 @@ type c14Case struct {
 	// Frags, when set, makes the relay state the concatenation of these fragments of
 	// c14Fragments instead of c14Relay[Relay]
 	Frags []int `json:"fragments,omitempty"`
+	// Pad, when non-zero, adds an element with that many bytes of text (half of it hard to
+	// compress) to the document before the URL is built
+	Pad int `json:"document_padding_bytes,omitempty"`
+}
+
+// c14Pads: documents from 1 kB to 300 kB (DEFLATE window and stored-block sizes, base64 groups)
+var c14Pads = []int{1000, 1001, 1002, 8200, 16400, 33000, 33001, 66000, 66002, 140000, 300000}
+
+func c14PadText(n int) string {
+	var b strings.Builder
+	h := sha256.Sum256([]byte("c14"))
+	for b.Len() < n/2 {
+		b.WriteString(hex.EncodeToString(h[:]))
+		h = sha256.Sum256(h[:])
+	}
+	for b.Len() < n {
+		b.WriteString("0123456789abcdef")
+	}
+	return b.String()[:n]
 }
 
 // c14Fragments are pieces with a meaning in a query string or in percent-encoding.
@@ -85,6 +119,14 @@ func c14SP(c c14Case) (*saml2.SAMLServiceProvider, string) {
 		sp.SetSPKeyStore(world.SetterKeyStore("KX"))
 		sp.SPSigningKeyStore = world.TLSKeyStore("KG")
 		signer = "KG"
+	}
+	switch c14Keys[c.Keys] {
+	case "failing-signer-setter":
+		sp.SetSPSigningKeyStore(&saml2.KeyStore{Signer: c14FailSigner{world.RSAKey("K1").Public()}, Cert: world.Cert("K1").Raw})
+		return sp, "K1"
+	case "failing-signing-key-store-field":
+		sp.SPSigningKeyStore = &world.PlainKeyStore{Err: errors.New("key store unavailable")}
+		return sp, "KG"
 	}
 	if c14Algs[c.Alg] == dsig.ECDSASHA256SignatureMethod || c14Keys[c.Keys] == "ecdsa-signing-setter" {
 		sp.SetSPSigningKeyStore(world.SetterKeyStore("KE"))
@@ -183,6 +225,9 @@ func c14ExecOn(sp *saml2.SAMLServiceProvider, signer string, c c14Case) (keys []
 			if err != nil {
 				return
 			}
+			if c.Pad > 0 {
+				doc.Root().CreateElement("pad").SetText(c14PadText(c.Pad))
+			}
 			docBytes, _ = doc.WriteToString()
 			switch fn {
 			case "BuildAuthURLFromDocument":
@@ -198,6 +243,10 @@ func c14ExecOn(sp *saml2.SAMLServiceProvider, signer string, c c14Case) (keys []
 	kp := "C14/" + fn + "/"
 	if p != "" {
 		return []string{kp + "panic"}, detail, "panic"
+	}
+	if err != nil && c14Failing(c) && (c.Sign || fn == "BuildLogoutURLRedirect") {
+		// a signature is due and the key cannot sign: an error is the right answer
+		return nil, detail, "error-as-due/signing-key-cannot-sign"
 	}
 	if err != nil {
 		return []string{kp + "error"}, detail, "ERROR"
@@ -387,6 +436,20 @@ func c14Run(r *mc.Run) {
 		}
 		cases = append(cases, c)
 	})
+	// large documents
+	nPad := 0
+	for fn := range c14Funcs {
+		if c14Funcs[fn] == "BuildAuthURL" || c14Funcs[fn] == "AuthRedirect" {
+			continue
+		}
+		for _, pad := range c14Pads {
+			for _, sign := range []bool{false, true} {
+				cases = append(cases, c14Case{Func: fn, Relay: 1 + pad%3, Doc: pad % 2, URL: pad % len(c14URLs), Sign: sign, Pad: pad})
+				nPad++
+			}
+		}
+	}
+	r.Set("large_document_cases", nPad)
 	// relay states assembled from fragments: every sequence of 2 (quick) / 2-3 (thorough), through
 	// the two signing redirect builders
 	maxF := 2
